@@ -23,6 +23,13 @@ CLAIMS["C04"] = ("symbolic column-term evaluation of the pandas pipelines (globa
     "Decides that temporal breakdown instantiates the interval-union template on every path: sweep over rows sorted by ts, end=ts+dur, group=cumsum(ts >(=) cummax of previous ends), min/first start and max end per group; kernel_time/idle/compute/non_compute are that template's arithmetic over the merge of all device rows and of the COMPUTATION rows (so the parts sum to kernel_time by construction), device-row predicate is true exactly off stream -1 and reads only the stream, percentages are round(100*part/kernel_time,2), classification is the comm->memory->compute->other chain over the spec regular languages (DFA-equivalence), facade forwards its arguments. Each slot is a necessary condition; numeric results and pandas semantics themselves are not decided.",
     "3/C04")
 
+CLAIMS["C07"] = ("symbolic column-term evaluation + comparison with a reference sweep template evaluated by the same evaluator (translation-validation style); marker-table extraction; DFA regex comparison",
+    "Decides that the overlap computation instantiates the two-marker sweep template: both operands are merge_kernel_intervals of the device rows of their kernel type, markers +a/-a and +b/-b with a, b, a+b non-zero, time-sorted concat with a fresh index, running = cumsum, overlap rows running == a+b, numerator sum(next_time - time), denominator the measure of the MERGED communication kernels, percentage round(100*ratio,2); plus interval-union template, classification chain and facade binding. Template conformance (necessary conditions), not the numeric value.",
+    "3/C07")
+CLAIMS["C06"] = ("symbolic column-term evaluation; complete decision-table extraction of the masked assignments over the atoms (launch_ts > prev_end, gap < threshold); join/suffix agreement; call-site argument binding",
+    "Decides: per stream the rows are exactly those of the stream, ts-sorted; gap = ts - shift(+1)(ts+dur); the idle category as a complete 4-row decision table equals {p->HOST_WAIT, !p&q->KERNEL_WAIT, !p&!q->OTHER} with strict comparisons; idle_time = per-category sum of gaps and ratio = idle_time/total; launch time = ts of the event whose id is the kernel's index_correlation via a left join against the whole trace frame with suffix agreement; device/category selection; enum values written = values mapped back to names; all 7 facade arguments bound to like-named parameters. Non-overlap within a stream is an input assumption.",
+    "3/C06")
+
 REASON_WIP = "checker under construction in this session (see DESIGN.md section 3); not claimed until its check is committed"
 
 
